@@ -252,17 +252,41 @@ Inductive claim :=
 | CReordered (q : path)      (* the child q stands at another index, nothing was removed from its parent *)
 | CValue (q : path)          (* the value of node q changed (field kind, command arg/result QName) *)
 | CListChanged (q : path)    (* the child-name list of node q changed (view key structure) *)
-| CChanged (q : path).       (* the schema element shown at node q changed (query arg/result type) *)
+| CChanged (q : path)        (* the schema element shown at node q changed (query arg/result type) *)
+| CAdditive.                 (* the edit only adds schema elements (a new type in a new package): nothing may be
+                                reported; unlike CCompat this does not depend on the constraint table *)
 
 (* t_ignored: what the exported IgnoreCompatibilityErrors(errs, [claimed path]) returned *)
 (* t_old / t_new are the REAL trees (appdefcompat.VerifBuildTree); t_treediff: the paths at which they
    differ from the harness's independent transcription of buildTree (empty on the unchanged code) *)
+(* t_pkg_orders: buildPackagesNode ranges over a Go map, so the order of the children of AppDef/Packages in
+   the trees the real call compared is unknown; when the package lists of old and new differ the harness
+   lists every ordering of both child lists (empty otherwise: with equal lists the order is immaterial) *)
 Record trace := mkTrace { t_old : tree; t_new : tree; t_claim : claim; t_errs : list cerr; t_ignored : list cerr;
-                          t_treediff : list path }.
+                          t_treediff : list path; t_pkg_orders : list (list tree * list tree) }.
+
+(* the children of AppDef/Packages and the tree with them replaced *)
+Definition packages_name : string := "Packages"%string.
+Definition pkgs (t : tree) : list tree :=
+  match find_last packages_name (tprops t) with Some (_, c) => tprops c | None => [] end.
+Definition set_pkgs (t : tree) (ps : list tree) : tree :=
+  match t with
+  | Node nm v cs => Node nm v (map (fun c => if String.eqb (tname c) packages_name then Node (tname c) (tval c) ps else c) cs)
+  end.
+Definition leaf_eqb (a b : tree) : bool :=
+  String.eqb (tname a) (tname b) && value_eqb (tval a) (tval b) && is_nil (tprops a) && is_nil (tprops b).
+Definition perm_b (a b : list tree) : bool :=
+  Nat.eqb (List.length a) (List.length b) && forallb (fun x => existsb (leaf_eqb x) b) a && forallb (fun x => existsb (leaf_eqb x) a) b.
+
+(* only additions: same value, every old child has a same-named counterpart in the same relative order *)
+Fixpoint supertreeb (o n : tree) {struct o} : bool :=
+  match o with
+  | Node _ ov ops => value_eqb ov (tval n) && embb (fun a b => supertreeb a b) true true ops (tprops n)
+  end.
 
 Definition claim_paths (cl : claim) : list path :=
   match cl with
-  | CNone | CCompat => []
+  | CNone | CCompat | CAdditive => []
   | CRemoved q | CReordered q | CValue q | CListChanged q | CChanged q => [q]
   end.
 
@@ -275,6 +299,7 @@ Definition claim_holds (cs : ctable) (cl : claim) (o n : tree) : bool :=
   match cl with
   | CNone => true
   | CCompat => compatb cs o n
+  | CAdditive => supertreeb o n
   | CRemoved q =>
       match split_last q with
       | Some (par, x) =>
@@ -319,8 +344,14 @@ Definition errs_eqb : list cerr -> list cerr -> bool := list_eqb cerr_eqb.
 
 (* correspondence: the model, run on the two trees, returns exactly the observed error list
    (constraint, path, type, in order) and the observed result of ignoring the claimed path; the trees are well-formed and equal to the transcription of buildTree; the claim is true of the trees *)
+Definition errors_agree (t : trace) : bool :=
+  errs_eqb (check_compat constrains (t_old t) (t_new t)) (t_errs t) ||
+  existsb (fun pp => perm_b (fst pp) (pkgs (t_old t)) && perm_b (snd pp) (pkgs (t_new t)) &&
+                     errs_eqb (check_compat constrains (set_pkgs (t_old t) (fst pp)) (set_pkgs (t_new t) (snd pp))) (t_errs t))
+          (t_pkg_orders t).
+
 Definition agrees (t : trace) : bool :=
-  errs_eqb (check_compat constrains (t_old t) (t_new t)) (t_errs t) &&
+  errors_agree t &&
   errs_eqb (ignore_errors (claim_paths (t_claim t)) (t_errs t)) (t_ignored t) &&
   wfb (t_old t) && wfb (t_new t) && is_nil (t_treediff t) &&
   claim_holds constrains (t_claim t) (t_old t) (t_new t).
@@ -334,7 +365,7 @@ Definition reported_near (q : path) (errs : list cerr) : bool :=
 Definition satisfies (t : trace) : bool :=
   match t_claim t with
   | CNone => true
-  | CCompat => is_nil (t_errs t)
+  | CCompat | CAdditive => is_nil (t_errs t)
   | CRemoved q | CReordered q | CValue q => reported_at q (t_errs t)
   | CListChanged q | CChanged q => reported_near q (t_errs t)
   end.
@@ -348,10 +379,11 @@ Definition parent_constraint (cs : ctable) (q : path) (o : tree) : N :=
   end.
 
 Definition covered (cs : ctable) (t : trace) : bool :=
+  is_nil (t_pkg_orders t) &&
   match t_claim t with
   | CNone | CCompat | CValue _ => true
   | CRemoved q => reports_removal (parent_constraint cs q (t_old t))
   | CReordered q => reports_reorder (parent_constraint cs q (t_old t))
   | CListChanged q => match sub_at q (t_old t) with Some a => is_nonmod (find_constraint (tname a) cs) | None => false end
-  | CChanged _ => false
+  | CChanged _ | CAdditive => false
   end.
